@@ -525,6 +525,7 @@ def run(ctx):
             ctx.sample({'case': case, 'what_the_responder_saw (identical on all four paths)': dw, 'response (identical)': rw})
     sess.finish()
     header_lookup_part(ctx, rnd, falcon, H, json)
+    target_part(ctx, rnd, falcon, H, json)
     loop.close()
 
 
@@ -678,6 +679,205 @@ def header_lookup_part(ctx, rnd, falcon, H, json):
         if any(lows.count(x) > 1 for x in set(lows)):
             ctx.count('hdr_case_with_repeated_name')
         ctx.seen(json.dumps(['hdr', case], sort_keys=True, default=repr), len(headers) >= 2)
+    sess.finish()
+
+
+# ---------------------------------------------------------------------- request side: target and connection attributes vs the Wq model
+T_SEGS = SEGS + ['%', '%4', '%zz', '%C3', '%A9', '%e2%82', '%F0%9F%98%80', '%ED%A0%80', '%C0%AF', '%F4%90%80%80', '%3F', '%2f', 'A', '..', '.', '%25', '%41',
+                 '%e9', '%C3%A9%C3', '+', 'a+b', '%80%80', '%E2%82%ACx']
+T_QUERIES = QUERIES + ['a=1?b=2', '?', '%', 'a=%', 'k=%C3', 'a=b=c', '=v', '&&', 'a=1&', 'x=%F0%9F%98%80', 'a=,', 'a=1,,2&a=3', 'A=1&a=2', 'sp=a+b%2Bc', 'u=%E2%82%AC,%2C']
+T_RAW = [b'\xc3\xa9', b'\xff', b'\xe9', b'\xe2\x82\xac', b'\x80', b'\xc3']          # raw (unescaped) non-ASCII bytes: outside RFC 3986
+T_HOSTS = HOSTS + ['h', 'h:0', 'h:65535', 'h:+5', 'h: 7', '[::1]', '[::1]:', '[::1]:x', 'a:b:c', '', ':', ':80', 'example.com:080', 'h:1_0']
+T_METHODS = ['GET', 'GET', 'POST', 'PUT', 'HEAD', 'DELETE', 'PATCH', 'OPTIONS', 'CONNECT', 'TRACE', 'PROPFIND']
+T_SCHEMES_OUT = ['ws', 'wss', 'ftp', 'HTTP', 'HTTPS', '']
+T_ROOTS = ['', '', '', '/app', '/a/b', '/app/', '/A']
+T_FWD = [('X-Forwarded-For', ['1.1.1.1, 2.2.2.2', '3.3.3.3', 'unknown', '', ' 4.4.4.4 ,5.5.5.5', '10.0.0.1']),
+         ('X-Real-Ip', ['9.9.9.9', '', '10.0.0.1']),
+         ('Forwarded', ['for=1.2.3.4;proto=https;host=h.example', 'for="[::1]:80", for=5.6.7.8', 'garbage;;,', 'for=a;by=b', 'for="1.2.3.4:_obf"', 'host=x', 'for=10.0.0.1'])]
+
+
+def target_part(ctx, rnd, falcon, H, json):
+    """Wire request (method, raw request-target bytes, scheme, server / client address, mount point, Host or not) -> PEP 3333 environ and
+    ASGI scope by the spec-faithful drivers (with the liberties the two specs leave to a server: optional keys left out) -> falcon.Request /
+    falcon.asgi.Request; method, path, query_string, params, root_path (= app), scheme, host, port, netloc, remote_addr, access_route of the
+    real objects against the Lean model `Wq` of both views (correspondence, also OUTSIDE the domain of the theorems where the model
+    predicts the difference) and against each other inside the domain (oracle: the statements of Wq.path_agree, ... themselves)."""
+    import falcon.asgi
+    import warnings
+    warnings.simplefilter('ignore')
+
+    def enc(t):
+        return '.' + '.'.join(str(ord(c)) for c in t)
+
+    def encb(b):
+        return '.' + '.'.join(str(c) for c in b)
+
+    def out(f, show=enc):
+        try:
+            v = f()
+        except falcon.HTTPInvalidHeader:
+            return '400'
+        except Exception:  # noqa
+            return 'EXC'
+        return show(v)
+
+    def show_params(p):
+        if not p:
+            return '-'
+        return ';'.join(enc(k) + ':' + ('m' + ','.join(enc(x) for x in v) if isinstance(v, list) else 'o' + enc(v)) for k, v in p.items())
+
+    def show_port(v):
+        return '~' if v is None else str(v)
+
+    def show_route(r):
+        return ','.join(enc(x) for x in r) if r else '-'
+
+    def observe(req):
+        return [out(lambda: req.method), out(lambda: req.path), out(lambda: req.query_string), out(lambda: req.params, show_params),
+                out(lambda: req.root_path), out(lambda: req.scheme), out(lambda: req.host), out(lambda: req.port, show_port),
+                out(lambda: req.netloc), out(lambda: req.remote_addr), out(lambda: req.access_route, show_route)]
+    NAMES = ['method', 'path', 'query_string', 'params', 'root_path', 'scheme', 'host', 'port', 'netloc', 'remote_addr', 'access_route']
+
+    async def receive():  # never awaited
+        raise AssertionError('receive() called')
+
+    OPTS = {}
+    for strip in (False, True):
+        for kb in (False, True):
+            for csv in (False, True):
+                o = falcon.RequestOptions()
+                o.strip_url_path_trailing_slash, o.keep_blank_qs_values, o.auto_parse_qs_csv = strip, kb, csv
+                OPTS[(strip, kb, csv)] = o
+
+    sess = ctx.session('request target and connection: falcon.Request(environ) and falcon.asgi.Request(scope) = Wq model '
+                       '(method, path, query_string, params, root_path, scheme, host, port, netloc, remote_addr, access_route)', 'wrdriver')
+    ORACLE = 'stacks agree: target and connection attributes on Request objects built from the spec-faithful environ / scope'
+    for ci in range(ctx.n(4000, 60000)):
+        # ---- the wire request
+        r = rnd.random()
+        if r < 0.06:
+            path = b'/'
+        elif r < 0.09:
+            path = b''        # the mount point is the whole URL path (PATH_INFO may be empty)
+        else:
+            path = ('/' + '/'.join(rnd.choice(T_SEGS) for _ in range(rnd.randint(1, 4))) + rnd.choice(['', '', '/', '/', '//'])).encode('ascii')
+        raw_path = rnd.random() < 0.04
+        if raw_path:
+            path += rnd.choice(T_RAW) + rnd.choice([b'', b'/'])
+        query = rnd.choice(T_QUERIES).encode('ascii')
+        raw_query = rnd.random() < 0.06
+        if raw_query:
+            query += rnd.choice([b'', b'&r=', b'&']) + rnd.choice(T_RAW) + rnd.choice([b'', b'=1'])
+        target = path + (b'?' + query if query or rnd.random() < 0.1 else b'')
+        method = rnd.choice(T_METHODS) if rnd.random() < 0.94 else rnd.choice(['get', 'Post', 'pUT'])
+        scheme = rnd.choice(['http', 'http', 'https']) if rnd.random() < 0.92 else rnd.choice(T_SCHEMES_OUT)
+        server = (rnd.choice(['falconframework.org', 'localhost', '10.0.0.5', '::1', 'srv']), rnd.choice([80, 443, 8080, 8443, 0, 65535, 8000, 4430, 800]))
+        client = rnd.choice([None, None, ('10.0.0.1', 5555), ('192.0.2.7', 40000), ('1.1.1.1', 1), ('::1', 0), ('2001:db8::1', 65535)])
+        if rnd.random() < 0.03:
+            client = ('', 0)
+        root = rnd.choice(T_ROOTS) if rnd.random() < 0.95 else rnd.choice(['/caf\xe9', '/€', '/\xff'])
+        headers = []
+        if rnd.random() < 0.7:
+            headers.append((rnd.choice(['Host', 'host', 'HOST']), rnd.choice(T_HOSTS)))
+            if rnd.random() < 0.04:
+                headers.append((rnd.choice(['Host', 'host']), rnd.choice(T_HOSTS)))
+        for n, vals in T_FWD:
+            if rnd.random() < 0.15:
+                headers.append((rnd.choice([n, n.lower(), n.upper()]), rnd.choice(vals)))
+                if rnd.random() < 0.15:
+                    headers.append((n, rnd.choice(vals)))
+        if rnd.random() < 0.3:
+            headers.append(('Accept', '*/*'))
+        if rnd.random() < 0.03:
+            headers.append((rnd.choice(['X_Forwarded_For', 'X_Real_Ip', 'HOST_']), '7.7.7.7'))
+        rnd.shuffle(headers)
+        # ---- the liberties of a server
+        lib = {'omit_SCRIPT_NAME': rnd.random() < 0.3, 'omit_QUERY_STRING': rnd.random() < 0.3, 'omit_root_path': rnd.random() < 0.3,
+               'omit_scheme': rnd.random() < 0.3, 'client_None': rnd.random() < 0.08, 'server_key': 'g' if rnd.random() < 0.88 else rnd.choice('mn')}
+        strip, kb, csv = rnd.random() < 0.5, rnd.random() < 0.5, rnd.random() < 0.5
+        path_b, _, query_b = target.partition(b'?')
+        ascii_target = all(c < 128 for c in target)
+
+        w = H.Wire(method, target.decode('ascii') if ascii_target else '/', headers, b'', scheme, server, client, root)
+        env = H.wsgi_environ(w)
+        scope = H.asgi_scope(w)
+        if not ascii_target:
+            # raw non-ASCII bytes in the request-target (outside RFC 3986 and outside lib_http.Wire): the same rules on bytes -
+            # PEP 3333 tunnels every CGI variable as latin-1, the ASGI scope carries the query as bytes
+            env['PATH_INFO'] = H.pct_decode(path_b.decode('latin-1')).decode('latin-1')
+            env['QUERY_STRING'] = query_b.decode('latin-1')
+            scope['path'] = H.pct_decode(path_b.decode('latin-1')).decode('utf-8', 'replace')
+            scope['raw_path'] = path_b
+            scope['query_string'] = query_b
+        if not root.isascii():
+            env['SCRIPT_NAME'] = root.encode('utf-8').decode('latin-1')   # PEP 3333: bytes tunnelled as latin-1; ASGI root_path is a unicode string
+        if lib['omit_SCRIPT_NAME'] and root == '':
+            del env['SCRIPT_NAME']
+        if lib['omit_QUERY_STRING'] and query_b == b'':
+            del env['QUERY_STRING']
+        if lib['omit_root_path'] and root == '':
+            del scope['root_path']
+        if lib['omit_scheme'] and scheme == 'http':
+            del scope['scheme']
+        if client is None and lib['client_None']:
+            scope['client'] = None
+        if lib['server_key'] == 'm':
+            del scope['server']
+        elif lib['server_key'] == 'n':
+            scope['server'] = None
+        if rnd.random() < 0.3:
+            del scope['raw_path']
+        case = {'method': method, 'target': target, 'scheme': scheme, 'server': list(server), 'client': list(client) if client else None, 'root_path': root,
+                'headers': [list(h) for h in headers], 'server_liberties': lib, 'strip_url_path_trailing_slash': strip, 'keep_blank_qs_values': kb,
+                'auto_parse_qs_csv': csv}
+
+        try:
+            wobs = observe(falcon.Request(env, options=OPTS[(strip, kb, csv)]))
+            if wobs[4] != out(lambda: falcon.Request(env).app):
+                wobs[4] = 'APP!=ROOT_PATH'
+        except Exception as e:  # noqa
+            wobs = ['CTOR:' + type(e).__name__]
+        try:
+            areq = falcon.asgi.Request(scope, receive, options=OPTS[(strip, kb, csv)])
+        except UnicodeDecodeError:
+            aobs = ['CTOR']
+        except Exception as e:  # noqa
+            aobs = ['CTOR:' + type(e).__name__]
+        else:
+            aobs = observe(areq)
+            if aobs[4] != out(lambda: areq.app):
+                aobs[4] = 'APP!=ROOT_PATH'
+
+        libs = ''.join(str(int(lib[k])) for k in ('omit_SCRIPT_NAME', 'omit_QUERY_STRING', 'omit_root_path', 'omit_scheme', 'client_None')) + lib['server_key']
+        sess.case(case)
+        sess.op(f"t m={enc(method)} tg={encb(target)} sc={enc(scheme)} sn={enc(server[0])} sp={server[1]} "
+                f"cl={'-' if client is None else enc(client[0]) + ':' + str(client[1])} rp={enc(root)} fw=0 "
+                f"hs={';'.join(enc(k) + ':' + enc(v) for k, v in headers) or '-'} lib={libs} o={int(strip)}{int(kb)}{int(csv)}",
+                'W ' + ' '.join(wobs) + ' A ' + ' '.join(aobs))
+
+        # ---- the property itself, inside its domain
+        lows = [n.lower() for n, _ in headers]
+        in_domain = (ascii_target and method == method.upper() and scheme in ('http', 'https') and (client is None or client[0] != '') and root.isascii()
+                     and lib['server_key'] == 'g' and not (client is None and lib['client_None'])
+                     and all('_' not in n for n, _ in headers) and all(lows.count(x) <= 1 for x in SINGLETONS))
+        if in_domain:
+            bad = [f'{NAMES[i]}: WSGI {wobs[i]} vs ASGI {aobs[i]}' for i in range(min(len(wobs), len(aobs))) if wobs[i] != aobs[i]]
+            if len(wobs) != len(aobs) or len(wobs) != len(NAMES):
+                bad.append(f'constructor: WSGI {wobs[:1]} vs ASGI {aobs[:1]}')
+            ctx.oracle(ORACLE, not bad, '; '.join(bad) or None, case)
+            ctx.count('tgt_case_in_domain')
+        else:
+            ctx.count('tgt_case_outside_domain(raw non-ASCII target byte, lower-case method, scheme not http/https, empty client address, client None, '
+                      'server key missing, non-ASCII mount point, "_" name or repeated Host: model predicts the difference)')
+        if b'%' in path_b:
+            ctx.count('tgt_path_with_percent_escape')
+        try:
+            H.pct_decode(path_b.decode('latin-1')).decode('utf-8')
+        except UnicodeDecodeError:
+            ctx.count('tgt_path_decodes_to_invalid_utf8')
+        if not any(n == 'host' for n in lows):
+            ctx.count('tgt_without_Host_header')
+        ctx.seen(json.dumps(['tgt', case], sort_keys=True, default=repr), b'%' in target or bool(query_b) or 'host' not in lows)
     sess.finish()
 
 
